@@ -214,6 +214,12 @@ def judge(ctx, case, truth, res, model):
             real_post = None if (qo[1][0] == "tok" and qo[1][1].startswith("exc:")) else (role != "post")
         else:
             real_pre, real_post = True, True
+        if real_pre is False and any(e[0] == "cap" for e in qs):
+            # judging the lists by hand, a call rejected by its preconditions never reaches the captures
+            ctx.fail("capture-for-a-rejected-call|%s|%s" % (op["op"], sig), case, D.describe(
+                case, res, "op %d %r: the preconditions reject the call, yet the real call evaluated captures: %r" % (
+                    i, op, [e[:2] for e in qs if e[0] == "cap"])))
+            return
         run = vrt.Run(truth=dict(truth))
         V.begin(run)
         try:
